@@ -115,20 +115,25 @@ def rule_b(ctx, ix):
     ctx.ob(R, f.construct, 'two links are created per axis', len(cs) == 2,
            detail='%d CoordinateComponentLink(s) are created per axis' % len(cs), where=where(f, lp))
     P, W = '%s._pixel_component_ids' % s, '%s._world_component_ids' % s
-    fwd = [c for c in cs if unparse(c.args[0]) == P]
-    bwd = [c for c in cs if unparse(c.args[0]) == W]
-    ok = len(fwd) == 1 and unparse(fwd[0].args[1]) == '%s[%s]' % (W, i) and unparse(fwd[0].args[3]) == i and \
+    from ..util import expand_locals
+
+    def X(e):
+        # local names for the id lists / the coordinate object are read through
+        return unparse(expand_locals(f.node, e))
+    fwd = [c for c in cs if X(c.args[0]) == P]
+    bwd = [c for c in cs if X(c.args[0]) == W]
+    ok = len(fwd) == 1 and X(fwd[0].args[1]) == '%s[%s]' % (W, i) and X(fwd[0].args[3]) == i and \
         (kwarg(fwd[0], 'pixel2world') is None or unparse(kwarg(fwd[0], 'pixel2world')) == 'True') and len(fwd[0].args) <= 4
     ctx.ob(R, f.construct + ' pixel->world', 'pixel ids -> world id i, index i, direction pixel->world', ok,
            detail='the pixel->world link of axis i is built as %s' % (unparse(fwd[0]) if fwd else None), where=where(f, lp))
-    ok = len(bwd) == 1 and unparse(bwd[0].args[1]) == '%s[%s]' % (P, i) and unparse(bwd[0].args[3]) == i and \
+    ok = len(bwd) == 1 and X(bwd[0].args[1]) == '%s[%s]' % (P, i) and X(bwd[0].args[3]) == i and \
         ((kwarg(bwd[0], 'pixel2world') is not None and unparse(kwarg(bwd[0], 'pixel2world')) == 'False') or
          (len(bwd[0].args) > 4 and unparse(bwd[0].args[4]) == 'False'))
     ctx.ob(R, f.construct + ' world->pixel', 'world ids -> pixel id i, index i, direction world->pixel (flag False)', ok,
            detail='the world->pixel link of axis i is built as %s: with the default flag it computes world from world' % (unparse(bwd[0]) if bwd else None),
            where=where(f, lp))
     for c in cs:
-        ctx.ob(R, f.construct + ' coords', 'the link uses the dataset\'s own coordinate object', unparse(c.args[2]) == '%s.coords' % s,
+        ctx.ob(R, f.construct + ' coords', 'the link uses the dataset\'s own coordinate object', X(c.args[2]) == '%s.coords' % s,
                detail='a coordinate link is built with %s' % unparse(c.args[2]), where=where(f, c), nontrivial=False)
     apps = [c for c in calls_in(lp) if call_name(c) == 'append']
     st = [x for x in walk_no_nested(f.node) if isinstance(x, ast.Assign) and unparse(x.targets[0]) == '%s._coordinate_links' % s]
@@ -158,24 +163,40 @@ def rule_c(ctx, ix):
     if f is None:
         raise AnalysisError('CoordinateComponentLink.using vanished')
     s = f.self_name
-    ifs = [n for n in walk_no_nested(f.node) if isinstance(n, ast.If) and unparse(n.test) == '%s.pixel2world' % s]
-    if len(ifs) != 1:
+    from .. import cond
+    from ..util import expand_locals, parent_map as _pm, enclosing
+    flag = cond.T('%s.pixel2world' % s)
+    pmf = _pm(f.node)
+    sites = {}
+    for c in calls_in(f.node):
+        if call_name(c) in ('pixel2world_single_axis', 'world2pixel_single_axis'):
+            st = c
+            while st is not None and not isinstance(st, ast.stmt):
+                st = pmf.get(id(st))
+            pc = cond.path_condition(f.node, st) if st is not None else None
+            if pc is not None:
+                pc = cond.restrict(pc, lambda k: k == flag[1])
+            sites.setdefault(call_name(c), []).append((c, pc))
+    if not sites:
         raise AnalysisError('CoordinateComponentLink.using: direction test not recognised')
-    t = ifs[0]
-    tb = [c for st in t.body for c in calls_in(st) if call_name(c) in ('pixel2world_single_axis', 'world2pixel_single_axis')]
-    fb = [c for st in t.orelse for c in calls_in(st) if call_name(c) in ('pixel2world_single_axis', 'world2pixel_single_axis')]
-    ok = len(tb) == 1 and len(fb) == 1 and call_name(tb[0]) == 'pixel2world_single_axis' and call_name(fb[0]) == 'world2pixel_single_axis'
+    tb = [c for c, pc in sites.get('pixel2world_single_axis', [])]
+    fb = [c for c, pc in sites.get('world2pixel_single_axis', [])]
+    ok = len(tb) == 1 and len(fb) == 1 and \
+        all(pc is not None and cond.equivalent(pc, flag) for c, pc in sites.get('pixel2world_single_axis', [])) and \
+        all(pc is not None and cond.equivalent(pc, cond.Not(flag)) for c, pc in sites.get('world2pixel_single_axis', []))
+    t = tb[0] if tb else (fb[0] if fb else f.node)
     ctx.ob(R, f.construct, 'flag true -> pixel2world_single_axis, false -> world2pixel_single_axis', ok,
-           detail='the direction flag selects %s / %s' % ([call_name(c) for c in tb], [call_name(c) for c in fb]), where=where(f, t))
+           detail='the direction flag selects %s' % {k: [str(pc) for c, pc in v] for k, v in sites.items()}, where=where(f, t))
     if ok:
         ka = kwarg(tb[0], 'world_axis')
         kb = kwarg(fb[0], 'pixel_axis')
-        ok2 = ka is not None and kb is not None and unparse(ka) == unparse(kb)
+        ok2 = ka is not None and kb is not None and norm(expand_locals(f.node, ka)) == norm(expand_locals(f.node, kb))
         ctx.ob(R, f.construct, 'both directions convert the index in the same way', ok2,
                detail='world_axis=%s but pixel_axis=%s' % (unparse(ka) if ka is not None else None, unparse(kb) if kb is not None else None),
                where=where(f, t))
         ctx.ob(R, f.construct, 'both directions pass the same coordinate object and arguments',
-               [unparse(a) for a in tb[0].args] == [unparse(a) for a in fb[0].args] and unparse(tb[0].args[0]) == '%s.coords' % s,
+               [norm(expand_locals(f.node, a)) for a in tb[0].args] == [norm(expand_locals(f.node, a)) for a in fb[0].args]
+               and norm(expand_locals(f.node, tb[0].args[0])) == '%s.coords' % s,
                detail='the two helper calls receive different positional arguments: %s vs %s' % ([unparse(a) for a in tb[0].args], [unparse(a) for a in fb[0].args]),
                where=where(f, t))
     # CoordinateComponent uses the pixel->world helper for world values
@@ -337,9 +358,11 @@ def rule_e(ctx, ix):
                                              ('world2pixel_single_axis', 'Wv', False, 'world inputs a pixel axis depends on: not its column '
                                               '(the table says which pixel axes each WORLD axis depends on) but every world axis coupled to it')):
         f = funcs[fname]
+        tests = [x.test for x in ast.walk(f) if isinstance(x, (ast.If, ast.IfExp, ast.While))] + \
+                [i for x in ast.walk(f) if isinstance(x, ast.comprehension) for i in x.ifs]
         deps = [v for v, ks in mr.env[fname].items() if dep_kind in ks and
-                any(isinstance(s_, ast.Subscript) and isinstance(s_.value, ast.Name) and s_.value.id == v and isinstance(pmx, ast.If)
-                    for pmx in ast.walk(f) if isinstance(pmx, ast.If) for s_ in ast.walk(pmx.test))]
+                any(isinstance(s_, ast.Subscript) and isinstance(s_.value, ast.Name) and s_.value.id == v
+                    for t_ in tests for s_ in ast.walk(t_))]
         if len(deps) != 1:
             raise AnalysisError('%s: the vector deciding which inputs are replaced by a constant is not recognised (%s)' % (fname, deps))
         v = deps[0]
